@@ -115,8 +115,9 @@ static void switch_to(int next) {
     if (next == me) return;
     R->cur = next;
     R->switches++;
+    Thread &self = *R->threads[me];   // taken before the baton is handed over: from then on the other thread may grow R->threads
     sem_post(&R->threads[next]->sem);
-    wait_baton(*R->threads[me]);
+    wait_baton(self);
 }
 
 static void wake_epoll_waiters() {
